@@ -325,7 +325,10 @@ class Sim:
         def exc(msg, *a, **k):
             import sys
 
-            sim.errors.append(('exception', msg, repr(sys.exc_info()[1])))
+            kind = ('injected' if isinstance(sys.exc_info()[1],
+                                             world.InjectedFault)
+                    else 'exception')
+            sim.errors.append((kind, msg, repr(sys.exc_info()[1])))
 
         def err(msg, *a, **k):
             sim.errors.append(('error', msg % a if a else msg))
@@ -432,15 +435,25 @@ class Sim:
     def handed(self):
         return [u for u in self.units if u.handed and not u.answered]
 
+    def limbo(self):
+        '''(tag, target) fetched from the scheduler by a dispatch that failed
+        before creating their task messages (injected database fault); the
+        farm retries them at the next dispatch'''
+        return {(j.tag, t) for j in self.farm._jobs for t in j.get('do')}
+
     def executing(self, tag):
-        '''targets released and unanswered for the algorithm (ground truth)'''
-        return {u.target for u in self.units if not u.answered and u.jobid == tag}
+        '''targets released and unanswered for the algorithm (ground truth),
+        plus those a failed dispatch still has to release'''
+        out = {u.target for u in self.units
+               if not u.answered and u.jobid == tag}
+        return out | {t for g, t in self.limbo() if g == tag}
 
     def pending_any(self):
         return any(n.get('todo') for n in self.nodes.values())
 
     def idle(self):
-        return not self.pending_any() and not self.inflight()
+        return (not self.pending_any() and not self.inflight()
+                and not self.limbo())
 
     def releasable(self, tag, target):
         '''reference rule of C01/C04: no upstream algorithm has the target (or
@@ -745,6 +758,10 @@ class Sim:
                 ev['unit'], ev['newset'] = r
                 ev['job_queued'] = self.reply_job_queued
                 ev['outcome'] = OUTCOMES[op[2] % 3]
+        elif kind == 'dbfault':
+            # the next db.next() fails once (database briefly unavailable)
+            if hasattr(self.db, 'fail_next'):
+                self.db.fail_next = 1
         elif kind == 'timer':
             # let time pass: to the next armed timer (op[1] == 0) or by a
             # fixed amount; due timers run schedule.defer
@@ -783,6 +800,7 @@ class Sim:
         ev['timer_fired'] = [t for st_, t in self.timer_fired
                              if st_ == self.step]
         ev['errors'] = self.errors[nerr:]
+        ev['fault'] = any(e[0] == 'injected' for e in ev['errors'])
         # justification bookkeeping (C02 minimality)
         if kind in ('rep', 'exec') and 'unit' in ev:
             u = ev['unit']
@@ -886,7 +904,7 @@ def op_strategy(weights=None):
         'tick': 2, 'rep': 2, 'req': 2, 'join': 1, 'leave': 0, 'tgt': 1,
         'pause': 0, 'active': 0, 'rereq': 1, 'auto': 9,
         'auto2': 8, 'requp': 1, 'status': 0, 'reload': 0, 'archived': 0,
-        'joinx': 0, 'timer': 0,
+        'joinx': 0, 'timer': 0, 'dbfault': 0,
     }
     w.update(weights or {})
     small = st.integers(0, 7)
@@ -923,6 +941,7 @@ def op_strategy(weights=None):
                           st.integers(0, 5)).map(list)] * w['status']
     choices += [st.tuples(st.just('reload'), small).map(list)] * w['reload']
     choices += [st.just(['archived'])] * w['archived']
+    choices += [st.just(['dbfault'])] * w['dbfault']
     choices += [st.tuples(st.just('timer'),
                           st.sampled_from([0, 0, 0, 0, 1, 2, 3])).map(list)
                 ] * w['timer']
